@@ -59,3 +59,11 @@ def mk(k):
 
 h1 = mk(1000)
 h2 = mk(2000)
+
+
+def relay(n):
+    """a generator that iterates directly over another instrumented generator, in the header of its for statement (C09:
+    closing or dropping it ends the inner generator first, then itself)"""
+    for v in gen(n):
+        yield v
+    return n
